@@ -2,6 +2,7 @@ package main
 
 import (
 	"fmt"
+	"go/ast"
 	"go/token"
 	"go/types"
 	"sort"
@@ -2335,6 +2336,45 @@ func ruleReadFills(c *Ctx, r *Rep, tier string) {
 		}
 	}
 	r.Check(why == "", rule, key, c.Pos(ret.Pos()), fmt.Sprintf("each of the %d ways to the final return has the buffer full or an error recorded", len(rb.Preds)), why)
+
+	// … and what Read returns as its error is the recorded error (or nil, or io.EOF
+	// behind the test of Blocked): the io.EOF of the *block's* Read means "this block
+	// is used up", not "the data ends" – returned as it is (fourteenth-round seed
+	// C01-p: a fast path that serves a request from what is left of the current
+	// block, and a zero-length request on a drained block) it is a clean end in
+	// mid-data.
+	r.Instance(rule, 1)
+	blockedF := c.Field("bgzf", "Reader", "Blocked")
+	why = ""
+	allInstrs(fn, func(ins ssa.Instruction) {
+		rt, ok := ins.(*ssa.Return)
+		if !ok || len(rt.Results) != 2 {
+			return
+		}
+		v := retValue(rt, 1)
+		switch {
+		case isNilConst(v):
+		case isGlobalLoad(v, "io", "EOF"):
+			okb := false
+			for _, b := range fn.Blocks {
+				ifi := ifOf(b)
+				if ifi == nil {
+					continue
+				}
+				if f, _ := loadedField(ifi.Cond); f == blockedF && dominatedByEdge(fn, b, 0, rt.Block()) {
+					okb = true
+				}
+			}
+			if !okb {
+				why = "io.EOF is returned at " + c.Pos(rt.Pos()) + " outside the Blocked-mode branch"
+			}
+		default:
+			if f, _ := loadedField(v); f != errF {
+				why = "Read returns " + symKey(v) + " as its error at " + c.Pos(rt.Pos()) + ", not the recorded error: the io.EOF of a block that is used up – also what a zero-length request gets from it – reaches the caller as the end of the data"
+			}
+		}
+	})
+	r.Check(why == "", rule, "bgzf.(*Reader).Read#returns-recorded-error", c.Pos(fn.Pos()), "every error Read returns is the recorded one, nil, or io.EOF in Blocked mode", why)
 }
 
 // isResultBase: ins is a call of Base() on the block a read-ahead result
@@ -2918,4 +2958,163 @@ func constByteSlice(v ssa.Value) ([]byte, bool) {
 		return out, int64(n) == at.Len()
 	}
 	return nil, false
+}
+
+// ---- MARKER-ONCE ---------------------------------------------------------------
+//
+// "A stream ends with the EOF marker iff the writer was closed without error",
+// and a prefix cut at a block boundary reads cleanly with HasEOF false: both
+// need the 28 marker bytes to reach the output exactly once, last, and only on
+// the success path of Close (W6 decides the path). Nothing else may emit them: a
+// block that happens to be empty written as the constant (fourteenth-round seeds
+// C08-o and C10-p: "an empty block is the same whatever the level") puts a
+// marker in front of the real one – if the last write fails the stream ends
+// with a marker although Close reported the failure, and the prefix that stops
+// before the real marker has HasEOF true.
+//
+// Who may use the constant, decided on the type-checked syntax: HasEOF, for the
+// comparison; (*Writer).Close, once. Any other reference – in a function, or in
+// a package-level initialiser that would carry it elsewhere – is reported.
+func ruleMarkerOnce(c *Ctx, r *Rep, tier string) {
+	rule := "MARKER-ONCE"
+	p := c.ByPath["bgzf"]
+	if p == nil {
+		unresolved("package bgzf")
+	}
+	obj := p.Types.Scope().Lookup("magicBlock")
+	if obj == nil {
+		unresolved("bgzf.magicBlock")
+	}
+	type site struct {
+		where string
+		pos   token.Pos
+	}
+	var uses []site
+	for _, f := range p.Syntax {
+		if strings.HasSuffix(c.Fset.Position(f.Pos()).Filename, "_test.go") {
+			continue
+		}
+		for _, d := range f.Decls {
+			where := "package level"
+			if fd, ok := d.(*ast.FuncDecl); ok {
+				where = fd.Name.Name
+				if fd.Recv != nil && len(fd.Recv.List) == 1 {
+					where = "(" + types.ExprString(fd.Recv.List[0].Type) + ")." + fd.Name.Name
+				}
+			} else if gd, ok := d.(*ast.GenDecl); ok && gd.Tok == token.CONST {
+				continue // its own declaration
+			}
+			ast.Inspect(d, func(n ast.Node) bool {
+				if id, ok := n.(*ast.Ident); ok && p.TypesInfo.Uses[id] == obj {
+					uses = append(uses, site{where, id.Pos()})
+				}
+				return true
+			})
+		}
+	}
+	r.Instance(rule, 1)
+	why := ""
+	closeUses := 0
+	for _, u := range uses {
+		switch u.where {
+		case "HasEOF":
+		case "(*Writer).Close":
+			closeUses++
+		default:
+			why = "the EOF marker constant is used in " + u.where + " (" + c.Pos(u.pos) + "): the 28 bytes that mean \"closed without error\" can reach the output from there – in front of the real marker, or without Close having succeeded"
+		}
+	}
+	if why == "" && closeUses != 1 {
+		why = fmt.Sprintf("(*Writer).Close refers to the EOF marker %d times, want once", closeUses)
+	}
+	r.Check(why == "", rule, "bgzf.magicBlock#users", c.Pos(obj.Pos()), fmt.Sprintf("used by HasEOF and once by (*Writer).Close only (%d references)", len(uses)), why)
+}
+
+// ---- W-DIRECT ------------------------------------------------------------------
+//
+// "Whenever the underlying writer has returned from a write, the bytes … form a
+// sequence of complete blocks": W4 shows that each block is handed to Writer.w in
+// one call; that is a statement about the destination only if Writer.w *is* the
+// destination. A layer put between the two when the Writer is made (fourteenth-
+// round seed C12-p: a bufio.Writer of MaxBlockSize that "gathers" small blocks
+// and, when a block does not fit what is left of its buffer, flushes the full
+// buffer – mid-block) re-cuts what W4 counted.
+//
+// Decided for every store to the field Writer.w: the value is a parameter of the
+// function that makes the Writer, as given (an interface conversion of the same
+// value apart) – not something the library built around it.
+func ruleWDirect(c *Ctx, r *Rep, tier string) {
+	rule := "W-DIRECT"
+	wF := c.Field("bgzf", "Writer", "w")
+	n := 0
+	for _, fn := range c.FuncsIn("bgzf") {
+		fn := fn
+		allInstrs(fn, func(ins ssa.Instruction) {
+			st, ok := ins.(*ssa.Store)
+			if !ok {
+				return
+			}
+			fa, ok := st.Addr.(*ssa.FieldAddr)
+			if !ok || fieldVarOfAddr(fa) != wF {
+				return
+			}
+			n++
+			r.Instance(rule, 1)
+			key := fmt.Sprintf("%s#destination~%d", c.FnName(fn), n)
+			v := st.Val
+			for i := 0; i < 3; i++ {
+				switch x := v.(type) {
+				case *ssa.ChangeInterface:
+					v = x.X
+					continue
+				case *ssa.MakeInterface:
+					v = x.X
+					continue
+				}
+				break
+			}
+			_, isParam := v.(*ssa.Parameter)
+			why := ""
+			if !isParam {
+				why = "Writer.w is set to " + symKey(st.Val) + ", not to the writer the caller gave: what the library puts in between decides where the bytes are cut on their way to the destination, and \"one Write per block\" (W4) no longer says anything about the file"
+			}
+			r.Check(why == "", rule, key, c.Pos(st.Pos()), "the destination is the caller's writer itself", why)
+		})
+	}
+	if n == 0 {
+		r.Instance(rule, 1)
+		r.Fail(rule, "bgzf.Writer.w#stores", "bgzf/writer.go", "no store to Writer.w found: the rule's anchor moved (undecided)")
+	}
+}
+
+// seqLengthNonZeroAt: block at is dominated by the non-zero edge of a test of
+// Seq.Length against 0.
+func seqLengthNonZeroAt(c *Ctx, fn *ssa.Function, at *ssa.BasicBlock) bool {
+	lenF := c.Field("sam", "Seq", "Length")
+	for _, b := range fn.Blocks {
+		ifi := ifOf(b)
+		if ifi == nil || b.Succs[0] == b.Succs[1] {
+			continue
+		}
+		x, ok := ifi.Cond.(*ssa.BinOp)
+		if !ok {
+			continue
+		}
+		f, _ := loadedField(stripConv(x.X))
+		k, isK := constInt(x.Y)
+		if f != lenF || !isK || k != 0 {
+			continue
+		}
+		edge := -1
+		switch x.Op {
+		case token.NEQ, token.GTR:
+			edge = 0
+		case token.EQL, token.LEQ:
+			edge = 1
+		}
+		if edge >= 0 && dominatedByEdge(fn, b, edge, at) {
+			return true
+		}
+	}
+	return false
 }
